@@ -46,4 +46,11 @@ PROPS = {
                      "plan cache, interleaved by the seeded scheduler at client steps, instrumented callbacks and the library's yield "
                      "hooks; plain and race builds; non-trivial = at least one context switch between tasks; distinct = distinct "
                      "scheduler trace hashes"),
+    "C20": dict(level="exploration", race=False,
+                quick=dict(enum=False, seeds=3000), thorough=dict(enum=False, seconds=420),
+                rule="one evaluation = one plan (prepared directly, through the plain or the normalising cache, or re-planned per call) "
+                     "executed 1-9 times by 1-3 interleaved clients, each execution with its own root token, variables, runtime-type "
+                     "variant and hostile-resolver faults; every resolver / type resolver / isTypeOf invocation checks its parameters "
+                     "locally and the per-path arguments and the response are compared with the same execution run alone; non-trivial = "
+                     "at least two executions; distinct = distinct scheduler trace hashes"),
 }
